@@ -141,7 +141,7 @@ Section Orc.
       let i := mk_invocation (a 2%nat) in
       let tag := sx_nth 0 (a 2%nat) in
       Some (sx_of_outcome
-              (run base (i_pid i) (i_repr i) (i_configured i) (i_branch i) (i_changes i) (i_transcript i) (i_pct i)
+              (sl_main base (i_pid i) (i_repr i) (i_configured i) (i_branch i) (i_changes i) (i_transcript i) (i_pct i)
                    (i_mcp_local i) (i_mcp_cache i)
                    (fun p => res_of_sx (fun y => z_of_str (sx_str y)) (orc (q "age" [tag; A p])))
                    (fun p => res_of_sx sx_str (orc (q "read" [tag; A p])))
